@@ -41,7 +41,7 @@ impl Default for PoolOpts {
     fn default() -> Self {
         PoolOpts {
             workers: default_workers(),
-            item_timeout: Duration::from_secs(300),
+            item_timeout: Duration::from_secs(900),
             mem_limit: 0,
             env: vec![],
         }
